@@ -8,6 +8,8 @@ from .core import *  # noqa
 from .core import _NOCONST
 from .interp import VEmptyList, VEmptySet, TOptObj, TDictRec, Interp, SpecUndef
 from . import frontend
+from . import dyn as D
+from .dyn import VDyn, TDyn
 
 
 # =============================================================== operators
@@ -96,9 +98,19 @@ def seq_copy(s):
 def contains(I, cont, x):
     if not I.spec:
         cont = I.force(cont)
+        if isinstance(x, VDyn):
+            x = I.force(x)
+    if isinstance(cont, VDyn):
+        raise Unsupported("'in' on a Dyn value in a specification (use as_dict/as_list/as_str)")
     if isinstance(cont, VEmptySet):
         return z3.BoolVal(False)
     if isinstance(cont, VMap) or isinstance(cont, VSet):
+        if isinstance(x, VDyn):
+            if cont.kt is TStr:
+                return z3.And(D.is_str(x.e), z3.Select(cont.dom, D.js(x.e)))
+            raise Unsupported("Dyn key tested against a non-string keyed container in a specification")
+        if not I.spec and isinstance(x, (VSeq, VMap, VSet, VDictRec, VEmptyList)):
+            I.raise_exc("TypeError", "unhashable type")
         if isinstance(x, VOpt) and not isinstance(cont.kt, TOpt) and x.t.inner == cont.kt:
             return z3.And(z3.Not(x.is_none()), z3.Select(cont.dom, x.t.dt.val(x.e)))
         try:
@@ -155,6 +167,10 @@ def subscript(I, o, k):
         k = I.force(k)
     elif isinstance(o, VOpt):
         o = o.val()
+    if isinstance(o, VDyn):     # spec mode only (exec mode forced above): choose the view by the key's type
+        o = D.spec_view(I, o, "dict" if isinstance(k, VStr) else "list")
+    if isinstance(k, VDyn):
+        k = D.spec_view(I, k, "str" if isinstance(o, (VMap, VDictRec)) else "int")
     if isinstance(o, VSeq):
         if not is_num(k) or isinstance(k, VReal):
             I.raise_exc("TypeError", "list indices must be integers")
@@ -400,6 +416,8 @@ def get_attribute(I, o, name, default=_NOCONST):
         o = o.val()
     elif isinstance(o, VOptObj):
         o = o.obj
+    elif isinstance(o, VDyn):
+        o = D.spec_view_for_attr(I, o, name, STR_METHODS, MAP_METHODS, SEQ_METHODS)
     if isinstance(o, VObj):
         I.ver.on_field_read(I, o, name)
         if name in o.fields:
@@ -687,6 +705,8 @@ def instantiate(I, cls, args, kwargs):
 
 def bi_len(I, args, kw):
     v = I.force(args[0]) if not I.spec else args[0]
+    if isinstance(v, VDyn):
+        return VInt(D.length(I, v))
     if isinstance(v, VSeq):
         return VInt(v.n)
     if isinstance(v, VEmptyList):
@@ -719,6 +739,8 @@ def bi_int(I, args, kw):
     if not args:
         return VInt(0)
     v = I.force(args[0]) if not I.spec else args[0]
+    if isinstance(v, VDyn):
+        raise Unsupported("int() of a Dyn value in a specification")
     if isinstance(v, VInt):
         return v
     if isinstance(v, VBool):
@@ -767,6 +789,8 @@ def bi_float(I, args, kw):
     if not args:
         return VReal(0)
     v = I.force(args[0]) if not I.spec else args[0]
+    if isinstance(v, VDyn):
+        return VReal(D.to_float(I, v))
     if is_num(v):
         return VReal(to_real(v))
     if isinstance(v, VStr):
@@ -791,6 +815,8 @@ def bi_str(I, args, kw):
     if not args:
         return VStr("")
     v = I.force(args[0]) if not I.spec else args[0]
+    if isinstance(v, VDyn):
+        return VStr(D.to_str_term(I, v))
     if isinstance(v, VStr):
         return v
     if isinstance(v, VInt):
@@ -856,9 +882,13 @@ def bi_max(I, args, kw):
 
 
 def bi_isinstance(I, args, kw):
-    v = I.force(args[0])
     tv = args[1]
     names = [x.name for x in tv.items] if isinstance(tv, VTuple) else [tv.name]
+    if isinstance(args[0], VDyn):
+        # symbolic answer (no 7-way fork on the runtime tag)
+        D.axioms(I)
+        return VBool(D.isinstance_cond(args[0], names))
+    v = I.force(args[0])
     return VBool(any(_isinst(I, v, nm) for nm in names))
 
 
@@ -962,6 +992,11 @@ def to_seq(I, v):
         return view_to_seq(I, VMapView(v, "keys"))
     if isinstance(v, VDictRec):
         return I.mk_list([VStr(k) for k in v.fields])
+    if isinstance(v, VStr):
+        i = z3.Int("ch_i")
+        return VSeq(z3.Lambda([i], z3.SubString(v.e, i, 1)), z3.Length(v.e), TStr, "list")
+    if isinstance(v, (VInt, VReal, VBool, VNone)) and not I.spec:
+        I.raise_exc("TypeError", "object is not iterable")
     raise Unsupported("list() of %s" % type(v).__name__)
 
 
@@ -1390,6 +1425,12 @@ def map_get(I, m, k, default):
     present = z3.Select(m.dom, kk)
     I.ver.on_map_read(I, m, kk, guard=present)
     val = m.get(kk)
+    if m.vt is TDyn and not isinstance(default, VDyn):
+        try:
+            # a JSON-like default ({} / [] / 0 / "") joins the Dyn value without forking the path
+            default = VDyn(D.to_dyn(default))
+        except TypeError:
+            pass
     sp = z3.simplify(present)
     if z3.is_true(sp):
         return val
@@ -1644,7 +1685,10 @@ def comprehension(I, n, env):
         if isinstance(base, VEmptyList):
             return VEmptyList()
         mk_item = lambda idx: base.get(idx)
-    I.ver.note_assumption("comprehension bodies are evaluated as pure total expressions")
+    if not I.spec and getattr(I.ver.cur, "strict_comps", False):
+        _check_comp_body(I, n, gen, env, base, mk_item)
+    else:
+        I.ver.note_assumption("comprehension bodies are evaluated as pure total expressions")
     p = I.path
     i = z3.Int(p.fresh_name("cp_i"))
     saved = I.spec
@@ -1656,6 +1700,8 @@ def comprehension(I, n, env):
         elt = I.ev(n.elt, e2)
     finally:
         I.spec = saved
+    if isinstance(elt, VDictRec):
+        elt = VDyn(D.to_dyn(elt))
     et = typeof(elt)
     lt = I.ver.comp_type(I, n)
     if lt is not None:
@@ -1687,6 +1733,25 @@ def comprehension(I, n, env):
                        patterns=hit_pats))
     res.filt = (sel, rank, base)
     return res
+
+
+def _check_comp_body(I, n, gen, env, base, mk_item):
+    """contracts with strict_comps=True: exceptions raised inside a comprehension / generator body are not ignored.
+    The filter and element expressions are executed once in exec mode (forking, raising) for an *arbitrary*
+    element index of the source; a python exception raised there propagates from the comprehension.  This
+    over-approximates short-circuiting consumers (any/all stop early): it can only report more exceptions.
+    The value of the comprehension is still the total (spec mode) encoding built afterwards."""
+    p = I.path
+    if not p.branch(base.n > 0):
+        return
+    j = p.fresh("cp_elem", z3.IntSort())
+    p.assume(z3.And(0 <= j, j < base.n))
+    e2 = Env(env, env.module)
+    I.assign(gen.target, mk_item(j), e2)
+    for c in gen.ifs:
+        if not I.test(I.ev(c, e2)):
+            return
+    I.ev(n.elt, e2)
 
 
 def to_seq_items(I, src):
@@ -1833,6 +1898,8 @@ def _iter_protocol(I, it):
         return ("map", m, it.kind)
     if isinstance(it, VSet):
         return ("set", it, "keys")
+    if isinstance(it, VStr):
+        return ("seq", z3.Length(it.e), lambda i: VStr(z3.SubString(it.e, i, 1)))
     raise Unsupported("iteration over %s" % type(it).__name__)
 
 
